@@ -383,10 +383,14 @@ func selectNodesForGraph(nodes Nodes, dropNegative bool) *Graph {
 		if n == nil {
 			continue
 		}
-		if n.Cum == 0 && n.Flat == 0 {
-			continue
-		}
-		if dropNegative && isNegative(n) {
+		if (n.Cum == 0 && n.Flat == 0) || (dropNegative && isNegative(n)) {
+			// Detach the node so no edge refers to a node that is not in the graph.
+			for src := range n.In {
+				delete(src.Out, n)
+			}
+			for dest := range n.Out {
+				delete(dest.In, n)
+			}
 			continue
 		}
 		gNodes = append(gNodes, n)
